@@ -1,28 +1,25 @@
-//! fv-harness: drives the real fontations code, records one line-protocol request per case for
-//! the Lean driver, evaluates the property oracles, and writes a JSON result.
+//! fv-harness: shared plumbing for the per-property correspondence binaries (src/bin/cXX.rs).
 //!
-//! usage: fv-harness <PROP> --tier quick|thorough --seed N --driver PATH --out FILE [--replay FILE]
-mod common;
-mod props;
+//! Each binary drives the real fontations code, records one line-protocol request per case for
+//! the property's Lean driver, evaluates model-independent property oracles, and writes a JSON
+//! result.  usage: cXX --tier quick|thorough --seed N --driver PATH --out FILE
+pub mod common;
 
 use common::{Config, Session};
 use std::path::PathBuf;
 
-fn main() {
+pub fn main_with(prop: &str, run: fn(&Config, &mut Session)) {
     let args: Vec<String> = std::env::args().collect();
-    if args.len() < 2 {
-        eprintln!("usage: fv-harness <PROP> --tier T --seed N --driver PATH --out FILE");
-        std::process::exit(2);
-    }
+    let lower = prop.to_lowercase();
     let mut cfg = Config {
-        prop: args[1].clone(),
+        prop: prop.to_string(),
         tier: "quick".into(),
         seed: 1,
-        driver: PathBuf::from("/verif/lean/.lake/build/bin/fvdriver"),
-        out: PathBuf::from("/verif/out/result.json"),
+        driver: PathBuf::from(format!("/verif/lean/.lake/build/bin/drv_{lower}")),
+        out: PathBuf::from(format!("/verif/out/{prop}.result.json")),
         replay: None,
     };
-    let mut i = 2;
+    let mut i = 1;
     while i < args.len() {
         match args[i].as_str() {
             "--tier" => { cfg.tier = args[i + 1].clone(); i += 2; }
@@ -37,10 +34,7 @@ fn main() {
     std::panic::set_hook(Box::new(|_| {}));
     let start = std::time::Instant::now();
     let mut s = Session::new(&cfg.prop);
-    if !props::run(&cfg, &mut s) {
-        eprintln!("unknown property {}", cfg.prop);
-        std::process::exit(2);
-    }
+    run(&cfg, &mut s);
     if let Err(e) = s.finish(&cfg, start) {
         eprintln!("harness i/o error: {e}");
         std::process::exit(3);
